@@ -1,7 +1,19 @@
 from vlib import H
 PROPERTY = 'C61'
 LEVEL = 'model_checking'
-CLAIM = ('wip')
+CLAIM = ('The real container templates are executed symbolically and compared after EVERY operation with a fixed-capacity array model written from the std::vector / std::deque / '
+         'memory-resource contracts. (1) prevector<4,uint32_t> and the production prevector<36,uint8_t> (src/prevector.h): push/emplace/pop_back, insert (single, count, range), erase (single, range), '
+         'resize, resize_uninitialized, assign (count, range), reserve, shrink_to_fit, clear, swap, copy/move construction and assignment, operator[]/front/back/data/iterators, operator==/<: same size, '
+         'same elements in the same order through every accessor, returned iterators correct, capacity contract (>= max(N,size), unchanged by the erase family and by growth that fits incl. exact fits, '
+         'no reallocation/data() stable when it fits, reserve/shrink_to_fit exact) and allocated_memory() == 0 inline / capacity*sizeof(T) on the heap. '
+         '(2) bitdeque<8> and bitdeque<3> (src/util/bitdeque.h over libstdc++ std::deque<std::bitset>): push/emplace/pop at both ends, resize (new bits false), assign (count, range, initializer list), '
+         'insert/emplace (single, count, range), erase (single, range), clear, swap, copy, move, operator[]/at()/front/back, iterator +,-,++,--,[],differences and comparisons, reverse iterators, at(size()) throws. '
+         '(3) VecDeque<uint32_t> and VecDeque<Tracked> (src/util/vecdeque.h; Tracked counts constructions/destructions and detects use outside lifetime): push/emplace/pop at both ends from wrapped ring states, '
+         'resize, clear, reserve, shrink_to_fit, swap, copy/move, operator[], ==, <=>; documented capacity contract; the container\'s own Assume() invariants compiled in. '
+         '(4) PoolResource<16,8>(24) and PoolResource<32,16>(40) (src/support/allocators/pool.h): for allocate/deallocate sequences with symbolic sizes 0..MAX+8 and alignments 1..32 every returned block is aligned, '
+         'disjoint from every live block, inside one chunk when pool-servable and otherwise exactly the operator new(bytes, alignment) block (released by the matching operator delete); a freed block of the same size class is reused before any '
+         'fresh memory or new chunk; pool memory is never handed out under two identities; chunk requests/NumAllocatedChunks()/ChunkSizeBytes()/destructor accounting exact. '
+         'Operation kinds, element counts (hence sizes) and, where stated, positions are concrete per query; all element values, prevector<4> positions, VecDeque indices, pool sizes and alignments are symbolic.')
 KINDS = ['NONE', 'PUSH', 'POP', 'INS1', 'INSN', 'INSR', 'ERASE1', 'ERASER', 'RESIZE', 'RESIZEU', 'ASSIGN', 'ASSIGNR', 'RESERVE', 'SHRINK', 'CLEAR',
          'SWAP', 'COPYCTOR', 'MOVE', 'COPYASG', 'MOVEASG', 'SETAT', 'CMP', 'EMPLACE']
 KID = {k: i for i, k in enumerate(KINDS)}
@@ -16,7 +28,7 @@ def pv(pvk, s0, *ops):
     return ('%s_s%d_%s' % ({0: 'p4', 1: 'p36', 2: 'p8'}[pvk], s0, '_'.join(names)), ', '.join([str(pvk), str(s0)] + ['%d, %d, %d' % p for p in pairs]))
 P4_QUICK = [   # prevector<4,uint32_t>: positions symbolic
     pv(0, 3, 'PUSH', 'PUSH', 'INS1', 'ERASE1'),           # cross the inline capacity by push_back, symbolic insert/erase on heap storage
-    pv(0, 4, 'INS1', 'ERASER:2', 'SHRINK', 'INSN:3'),     # cross by insert at full capacity, erase back below N (stays on heap), shrink -> inline, count insert crossing again
+    pv(0, 4, 'INS1', 'ERASER:2@1', 'SHRINK', 'INSN:3'),     # cross by insert at full capacity, erase back below N (stays on heap), shrink -> inline, count insert crossing again
     pv(0, 2, 'INSR:3', 'RESIZE:2', 'RESERVE:7', 'ASSIGNR:6'),
     pv(0, 5, 'COPYCTOR', 'MOVE', 'SWAP:2', 'CMP:2'),
     pv(0, 0, 'RESIZE:5', 'POP', 'POP', 'SHRINK'),
@@ -27,6 +39,12 @@ P4_QUICK = [   # prevector<4,uint32_t>: positions symbolic
     pv(0, 4, 'RESERVE:5', 'INSR:1', 'SWAP:5', 'ERASER:1'),
     pv(0, 4, 'CMP:4', 'MOVEASG:0', 'INSR:5', 'COPYASG:4'),
     pv(0, 1, 'ASSIGN:5', 'SHRINK', 'ERASE1', 'INSR:2'),
+    # exact fits: the new size equals the capacity (inline N = 4, then heap capacity 7 / 5 / 6): no reallocation allowed
+    pv(0, 3, 'INS1', 'RESERVE:7', 'INSR:3', 'ERASE1'),
+    pv(0, 2, 'INSN:2', 'POP', 'EMPLACE', 'SHRINK'),
+    pv(0, 1, 'RESIZE:4', 'ASSIGN:4', 'ASSIGNR:4', 'COPYASG:4'),
+    pv(0, 5, 'POP', 'PUSH', 'ERASE1', 'INS1'),
+    pv(0, 6, 'ERASER:2', 'INSN:2', 'RESIZE:3', 'RESIZEU:6'),
 ]
 P36_QUICK = [  # prevector<36,uint8_t> (CScript storage): positions concrete (front / middle / back), sizes straddle 36
     pv(1, 35, 'PUSH', 'PUSH', 'INS1@0', 'ERASE1@37'),
@@ -41,6 +59,12 @@ P36_QUICK = [  # prevector<36,uint8_t> (CScript storage): positions concrete (fr
     pv(1, 36, 'RESERVE:37', 'INSR:1@36', 'SWAP:37', 'ERASER:1@0'),
     pv(1, 36, 'CMP:36', 'MOVEASG:0', 'INSR:37@0', 'COPYASG:36'),
     pv(1, 1, 'ASSIGN:37', 'SHRINK', 'ERASE1@36', 'INSR:2@1'),
+    # exact fits at the inline capacity 36 and at heap capacities
+    pv(1, 35, 'INS1@35', 'RESERVE:40', 'INSR:4@0', 'ERASE1@20'),
+    pv(1, 34, 'INSN:2@17', 'POP', 'EMPLACE', 'SHRINK'),
+    pv(1, 1, 'RESIZE:36', 'ASSIGN:36', 'ASSIGNR:36', 'COPYASG:36'),
+    pv(1, 37, 'POP', 'PUSH', 'ERASE1@0', 'INS1@18'),
+    pv(1, 38, 'ERASER:2@36', 'INSN:2@0', 'RESIZE:35', 'RESIZEU:38'),
 ]
 DK = ['NONE', 'PUSHB', 'PUSHF', 'EMPB', 'EMPF', 'POPB', 'POPF', 'RESIZE', 'CLEAR', 'RESERVE', 'SHRINK', 'SWAP', 'COPYCTOR', 'COPYASG', 'MOVECTOR', 'MOVEASG', 'SETAT', 'CMP']
 DKID = {k: i for i, k in enumerate(DK)}
@@ -75,7 +99,8 @@ def bd(bits, s0, *ops):
     return ('b%d_s%d_%s' % (bits, s0, '_'.join(names)), ', '.join([str(bits), str(s0)] + ['%d, %d, %d' % t for t in tr]))
 BD_QUICK = [
     bd(8, 7, 'PUSHB', 'PUSHB', 'PUSHF', 'POPB'),                     # fill the word, open a second one at the back and one at the front
-    bd(8, 9, 'POPF', 'POPB', 'RESIZE:12', 'RESIZE:3'),               # popped bits must read back as false when the deque grows again
+    bd(8, 10, 'POPF', 'POPB', 'RESIZE:12', 'RESIZE:3'),              # a popped bit (its word stays) must read back as false when the deque grows again
+    bd(8, 14, 'ERASER:3@9', 'RESIZE:14', 'ERASE1@12', 'RESIZE:16'),  # same for bits vacated by erase near the back
     bd(8, 10, 'INS1@2', 'INS1@9', 'ERASE1@1', 'ERASE1@10'),          # insert/erase nearer the front (moves the head) and nearer the back (moves the tail)
     bd(8, 6, 'INSR:11@2', 'ERASER:9@4', 'INSN:3@5', 'ERASER:8@0'),   # multi-word inserts/erases
     bd(8, 17, 'COPY', 'MOVE', 'SWAP:3', 'ASSIGN:9'),
@@ -85,13 +110,100 @@ BD_QUICK = [
     bd(3, 7, 'POPF', 'POPF', 'INS1@1', 'ERASE1@4'),
     bd(3, 2, 'ASSIGNIL', 'INSN:7@1', 'POPB', 'RESIZE:12'),
 ]
+def pl(maxb, align, chunk, *ops, wchunk=0):
+    """entry for pool.cpp: 'A' allocate (symbolic size/alignment), 'Ar' same + witness that a freed block is reused here, 'Dk' deallocate the k-th allocated block"""
+    tr = []
+    for o in ops:
+        if o[0] == 'A': tr.append((1, 1 if o == 'Ar' else 0))
+        else: tr.append((2, int(o[1:])))
+    while len(tr) < 6: tr.append((0, 0))
+    return ('m%da%dc%d_%s' % (maxb, align, chunk, '_'.join(o.lower() for o in ops)), ', '.join([str(maxb), str(align), str(chunk), str(wchunk)] + ['%d, %d' % t for t in tr]))
+PL_QUICK = [
+    pl(16, 8, 24, 'A', 'A', 'D0', 'Ar', wchunk=1),
+    pl(16, 8, 24, 'A', 'D0', 'Ar', 'A', wchunk=1),
+    pl(16, 8, 24, 'A', 'A', 'A', 'A', wchunk=1),
+    pl(16, 8, 24, 'A', 'A', 'D1', 'D0'),
+    pl(32, 16, 40, 'A', 'A', 'D0', 'Ar', wchunk=1),
+]
+# ---- thorough tier: everything above plus single-operation sweeps from sizes around the inline capacity and 6-operation sequences
+SINGLE = ['PUSH', 'EMPLACE', 'POP', 'INS1', 'INSN:2', 'INSR:3', 'ERASE1', 'ERASER:2', 'RESIZE:%(lo)d', 'RESIZE:%(hi)d', 'RESIZEU:%(lo)d', 'RESIZEU:%(hi)d', 'ASSIGN:%(n)d', 'ASSIGN:%(hi)d', 'ASSIGNR:%(n)d', 'ASSIGNR:%(hi)d',
+          'RESERVE:%(hi)d', 'SHRINK', 'CLEAR', 'SWAP:%(hi)d', 'COPYCTOR', 'MOVE', 'COPYASG:%(hi)d', 'MOVEASG:%(n)d', 'SETAT', 'CMP:%(n)d']
+def uniq(lst):
+    seen = set(); out = []
+    for e in lst:
+        if e[0] not in seen: seen.add(e[0]); out.append(e)
+    return out
+P4_THOROUGH = list(P4_QUICK)
+for s0 in (3, 4, 5):
+    for o in SINGLE: P4_THOROUGH.append(pv(0, s0, o % dict(lo=2, hi=6, n=4)))
+P4_THOROUGH += [
+    pv(0, 2, 'PUSH', 'PUSH', 'PUSH', 'INS1', 'ERASER:2@0', 'SHRINK'),
+    pv(0, 5, 'ERASE1', 'ERASE1@0', 'SHRINK', 'INSR:3', 'POP', 'CMP:5'),
+    pv(0, 0, 'INSN:5@0', 'SETAT', 'COPYCTOR', 'RESIZE:4', 'SHRINK', 'EMPLACE'),
+    pv(0, 4, 'SWAP:6', 'MOVE', 'INS1', 'RESERVE:9', 'ASSIGNR:9', 'ERASER:5'),
+]
+P36_THOROUGH = list(P36_QUICK)
+for s0 in (35, 36, 37):
+    for o in SINGLE:
+        o = o % dict(lo=34, hi=38, n=36); k = o.split(':')[0]
+        if k in ('INS1', 'INSN', 'INSR'): P36_THOROUGH += [pv(1, s0, o + '@0'), pv(1, s0, o + '@18'), pv(1, s0, o + '@%d' % s0)]
+        elif k in ('ERASE1', 'SETAT'): P36_THOROUGH += [pv(1, s0, o + '@0'), pv(1, s0, o + '@18'), pv(1, s0, o + '@%d' % (s0 - 1))]
+        elif k == 'ERASER': P36_THOROUGH += [pv(1, s0, o + '@0'), pv(1, s0, o + '@18'), pv(1, s0, o + '@%d' % (s0 - 2))]
+        else: P36_THOROUGH.append(pv(1, s0, o))
+P36_THOROUGH += [
+    pv(1, 34, 'PUSH', 'PUSH', 'PUSH', 'INS1@0', 'ERASER:2@0', 'SHRINK'),
+    pv(1, 37, 'ERASE1@36', 'ERASE1@0', 'SHRINK', 'INSR:3@35', 'POP', 'CMP:37'),
+    pv(1, 0, 'INSN:37@0', 'SETAT@36', 'COPYCTOR', 'RESIZE:36', 'SHRINK', 'EMPLACE'),
+]
+VD_THOROUGH = list(VD_QUICK)
+for tk in (0, 1):
+    VD_THOROUGH += [
+        vd(tk, 2, 1, 1, 'PUSHF', 'PUSHF', 'POPB', 'POPB', 'PUSHB', 'SHRINK'),
+        vd(tk, 6, 3, 3, 'POPF', 'POPF', 'EMPB', 'EMPB', 'EMPB', 'CMP:6'),
+        vd(tk, 0, 2, 0, 'COPYASG:4', 'POPF', 'MOVEASG:2', 'RESIZE:5', 'SETAT', 'CLEAR'),
+        vd(tk, 5, 0, 5, 'POPF', 'PUSHB', 'POPF', 'PUSHB', 'PUSHB', 'COPYCTOR'),
+        vd(tk, 3, 3, 0, 'SWAP:4', 'RESERVE:8', 'PUSHF', 'SHRINK', 'MOVECTOR', 'CMP:5'),
+    ]
+BD_THOROUGH = BD_QUICK + [
+    bd(8, 15, 'PUSHF', 'PUSHF', 'ERASER:10@3', 'INSR:12@4', 'POPF', 'RESIZE:20'),
+    bd(8, 24, 'ERASER:16@4', 'INSN:9@0', 'INSN:9@17', 'ERASE1@0', 'ERASE1@24', 'SWAP:8'),
+    bd(3, 9, 'PUSHF', 'PUSHF', 'ERASER:5@3', 'INSR:7@2', 'POPF', 'RESIZE:14'),
+    bd(3, 12, 'ERASER:7@2', 'INSN:4@0', 'INSN:4@9', 'ERASE1@0', 'COPY', 'MOVE'),
+    bd(8, 16, 'INS1@0', 'INS1@17', 'INS1@9', 'ERASE1@9', 'ERASER:8@5', 'ASSIGNIL'),
+]
+PL_THOROUGH = PL_QUICK + [
+    pl(16, 8, 24, 'A', 'A', 'D0', 'D1', 'Ar', 'Ar', wchunk=1),
+    pl(16, 8, 24, 'A', 'A', 'A', 'D1', 'Ar', 'A', wchunk=1),
+    pl(32, 16, 40, 'A', 'A', 'A', 'D0', 'Ar', 'D1', wchunk=1),
+    pl(16, 8, 16, 'A', 'A', 'D0', 'A', 'D1', 'A', wchunk=1),
+]
+PVFN = ['prevector<N,T,Size,Diff>: change_capacity, item_ptr/direct_ptr/indirect_ptr, fill, assign(n,val), assign(first,last), range/copy/move constructors, operator=(const&/&&), size, empty, begin/end, capacity, operator[], resize, reserve, '
+        'shrink_to_fit, clear, insert(pos,val), insert(pos,n,val), insert(pos,first,last), resize_uninitialized, erase(pos), erase(first,last), emplace_back, push_back, pop_back, front, back, swap, ~prevector, operator==, operator<, '
+        'allocated_memory, data; iterator/const_iterator arithmetic (src/prevector.h)']
+PVST = ['malloc/realloc/free: runtime model (size-class rounding, free is a no-op): heap overflow/use-after-free inside the container are outside the claim; capacity()/allocated_memory() are compared with the contract, not with the allocator']
 HARNESSES = [
-    H('pv_small', 'prevector.cpp', 'h_pv_small', link=[], entries=P4_QUICK, unwind=16, memunwind=60, timeout=300, objbits=10,
-      functions=['prevector<N,T> (src/prevector.h)'], bounds='wip'),
-    H('pv_script', 'prevector.cpp', 'h_pv_script', link=[], entries=P36_QUICK, unwind=66, memunwind=66, timeout=300, objbits=10,
-      functions=['prevector<N,T> (src/prevector.h)'], bounds='wip'),
-    H('vecdeque', 'vecdeque.cpp', 'h_vecdeque', link=[], entries=VD_QUICK, defines={'ABORT_ON_FAILED_ASSUME': None}, unwind=16, memunwind=60, timeout=300, objbits=10,
-      functions=['VecDeque<T> (src/util/vecdeque.h)'], bounds='wip'),
-    H('bitdeque', 'bitdeque.cpp', 'h_bitdeque', link=[], entries=BD_QUICK, unwind=44, memunwind=72, timeout=300, objbits=11,
-      functions=['bitdeque<BITS_PER_WORD> (src/util/bitdeque.h)'], bounds='wip'),
+    H('pv_small', 'prevector.cpp', 'h_pv_small', link=[], entries=uniq(P4_QUICK), tentries=uniq(P4_THOROUGH), unwind=16, memunwind=60, timeout=400, objbits=10, functions=PVFN, stubs=PVST,
+      assumptions=['positions passed to insert/erase are valid iterators into the container (API precondition)', 'pop_back/erase only on non-empty containers (API precondition)'],
+      bounds='prevector<4,uint32_t>; %d quick / %d thorough operation sequences of <= 4 (thorough <= 6) operations from initial sizes 0..6 (model capacity 14 elements); operation kinds and element counts concrete, all element values symbolic, '
+             'insert/erase/operator[] positions symbolic over their whole valid range (at most 2 symbolic positions per sequence)' % (len(uniq(P4_QUICK)), len(uniq(P4_THOROUGH)))),
+    H('pv_script', 'prevector.cpp', 'h_pv_script', link=[], entries=uniq(P36_QUICK), tentries=uniq(P36_THOROUGH), unwind=66, memunwind=66, timeout=400, objbits=10, functions=PVFN, stubs=PVST,
+      assumptions=['positions passed to insert/erase are valid iterators into the container (API precondition)'],
+      bounds='prevector<36,uint8_t> (CScript storage); %d quick / %d thorough sequences, sizes 0..40 straddling the inline capacity 36 (model capacity 64); kinds, counts and positions (front / middle / back) concrete, all byte values symbolic' % (len(uniq(P36_QUICK)), len(uniq(P36_THOROUGH)))),
+    H('vecdeque', 'vecdeque.cpp', 'h_vecdeque', link=[], entries=uniq(VD_QUICK), tentries=uniq(VD_THOROUGH), defines={'ABORT_ON_FAILED_ASSUME': None}, unwind=16, memunwind=60, timeout=400, objbits=10,
+      functions=['VecDeque<T>: Reallocate (memcpy and construct_at/destroy_at paths), BufferIndex, FirstPart, ResizeDown, resize, clear, ~VecDeque, copy/move construction and assignment, swap (member and friend), operator==, operator<=>, reserve, shrink_to_fit, '
+                 'emplace_back/push_back, emplace_front/push_front, pop_front, pop_back, front, back, operator[], empty, size, capacity (src/util/vecdeque.h)'],
+      stubs=['assertion_fail -> CBMC assertion (Assume() compiled in with ABORT_ON_FAILED_ASSUME)', 'operator new/delete: runtime model'],
+      assumptions=['pop/front/back/operator[] only within the current size (API precondition)'],
+      bounds='element types uint32_t and a lifetime-tracking class; %d quick / %d thorough sequences: ring prepared by reserve(0..6) + <= 3 push_front + <= 5 push_back, then <= 4 (thorough 6) operations, sizes <= 12; kinds and counts concrete, values and SETAT index symbolic' % (len(uniq(VD_QUICK)), len(uniq(VD_THOROUGH)))),
+    H('bitdeque', 'bitdeque.cpp', 'h_bitdeque', link=[], entries=uniq(BD_QUICK), tentries=uniq(BD_THOROUGH), unwind=44, memunwind=72, timeout=600, objbits=11,
+      functions=['bitdeque<BITS_PER_WORD>: Iterator (+=, -=, ++, --, -, +, [], *, ==, <=>), erase_back, extend_back, erase_front, extend_front, insert_zeroes, assign (count / range / initializer_list), constructors, begin/end/cbegin/cend/crbegin, size, empty, '
+                 'at, operator[], front, back, clear, push/emplace/pop at both ends, resize, swap, erase (4 overloads), insert (3 overloads), emplace (src/util/bitdeque.h)', 'std::deque<std::bitset<B>> and std::move/move_backward over bit iterators (libstdc++ headers)'],
+      stubs=['operator new/delete: runtime model'],
+      bounds='blob sizes 8 and 3 bits; %d quick / %d thorough sequences of <= 4 (thorough 6) operations, sizes 0..40 bits (several words); kinds, counts and positions concrete, every bit value symbolic' % (len(uniq(BD_QUICK)), len(uniq(BD_THOROUGH)))),
+    H('pool', 'pool.cpp', 'h_pool', link=[], entries=uniq(PL_QUICK), tentries=uniq(PL_THOROUGH), unwind=10, memunwind=72, timeout=900, objbits=10,
+      functions=['PoolResource<MAX_BLOCK_SIZE_BYTES, ALIGN_BYTES>: constructor, AllocateChunk (leftover recycling), Allocate, Deallocate, NumElemAlignBytes, IsFreeListUsable, PlacementAddToList, NumAllocatedChunks, ChunkSizeBytes, destructor (src/support/allocators/pool.h)',
+                 'std::list<std::byte*>::emplace_back (libstdc++ headers)'],
+      stubs=['::operator new/delete(size_t, std::align_val_t) -> recording slot allocator (64-byte aligned 64-byte slots, one per operation)', 'std::__detail::_List_node_base::_M_hook (libstdc++.so) -> 4-line model in the harness', 'assertion_fail -> CBMC assertion'],
+      assumptions=['Deallocate is called with the size and alignment of the matching Allocate (API precondition)'],
+      bounds='PoolResource<16,8> with 24- and 16-byte chunks and PoolResource<32,16> with 40(->48)-byte chunks; %d quick / %d thorough sequences of <= 4 (thorough 6) Allocate/Deallocate operations; every size in 0..MAX+8 and every alignment in {1,2,4,8,16,32} symbolic' % (len(uniq(PL_QUICK)), len(uniq(PL_THOROUGH)))),
 ]
